@@ -114,6 +114,7 @@ def pre(ctx):
     """dump the constants of every shipped configuration from the Rust configs (`c12 params`) and the
     private constants of the overrides from the sources; store them in params.json"""
     _gen2_regen(ctx)
+    _gen3_regen(ctx)
     import vcheck, subprocess
     hdir, tdir = ctx['harness_dir']()
     rc, out = ctx['sh']('cargo build --offline --bin c12', cwd=hdir, timeout=3000, env={'RUSTFLAGS': '--cfg ' + vcheck.GUARD})
@@ -404,12 +405,21 @@ EXTRA_PROP_FILES = ['Assoc']
 # T-field translator, table 2 (lib/xlate_field.py --table2): coq/Gen/GenField2.v (hash-to-curve maps, coordinate recovery,
 # subgroup tests / endomorphisms incl. the bls12_381 and bn254 overrides) is regenerated from the working tree before the Coq
 # build; Props/Gen2.v (generated = the C13 / C09 / C12 models + corollaries) is a strict obligation
-STRICT_PROP_FILES = ['Gen2']
+STRICT_PROP_FILES = ['Gen2', 'Gen3']
 
 
 def _gen2_regen(ctx):
     import importlib.util, os
     sp = importlib.util.spec_from_file_location('gen_pre2', os.path.join(ctx['ROOT'], 'props', 'Gen', 'pre2.py'))
+    m = importlib.util.module_from_spec(sp); sp.loader.exec_module(m)
+    m.regen(ctx)
+
+# T-field translator, table 3 (lib/xlate_field.py --table3): per-curve hook overrides (Fp2/Fp3/Fp6 non-residue hooks,
+# mul_by_a), tower helpers (norm, cyclotomic inverse, mul_by_fp*, Frobenius coefficient hooks), SubAssign / cofactor code,
+# point serialisation; Props/Gen3.v is a strict obligation
+def _gen3_regen(ctx):
+    import importlib.util, os
+    sp = importlib.util.spec_from_file_location('gen_pre3', os.path.join(ctx['ROOT'], 'props', 'Gen', 'pre3.py'))
     m = importlib.util.module_from_spec(sp); sp.loader.exec_module(m)
     m.regen(ctx)
 
